@@ -7,7 +7,7 @@ import copy
 
 from smartquery.custom_types import Decimal
 from smartquery.exceptions import ParserError, OpsExecutionLimitExceededError
-from smartquery.functions import _dict_key_cast, _multiply, _check_concat_size
+from smartquery.functions import _dict_key_cast, _multiply, _divide, _check_concat_size
 from smartquery.utils import safe_cast
 from smartquery.vm_state import VMState, current_state
 
@@ -76,7 +76,7 @@ class BinOp(Op):
             # explicitly cast to Decimal to avoid powering of big integers
             return Decimal(op1) ** Decimal(op2)
         elif self.op == '/':
-            return op1 / op2
+            return _divide(op1, op2)
 
         elif self.op == '==':
             return op1 == op2
@@ -157,7 +157,7 @@ class ShortOp(Op):
         elif self.op == '*=':
             state.names[self.name] = _multiply(state.names[self.name], value)
         elif self.op == '/=':
-            state.names[self.name] /= value
+            state.names[self.name] = _divide(state.names[self.name], value)
         else:
             raise ParserError(f'Unsupported short op: {self.op}')
 
